@@ -1,12 +1,16 @@
 package main
 
 import (
+	"context"
 	"fmt"
 	"strings"
 	"sync"
 
 	"github.com/smallstep/certificates/authority"
+	"github.com/smallstep/certificates/authority/admin"
+	adminDBNosql "github.com/smallstep/certificates/authority/admin/db/nosql"
 	"github.com/smallstep/linkedca"
+	"github.com/smallstep/nosql"
 
 	"github.com/smallstep/certificates/authority/provisioner"
 	"verif/harness/cmd/c02/ss"
@@ -80,7 +84,8 @@ func runTokid(t *Tokid) (string, string) {
 		return "", ""
 	}
 	dtofuCfg := len(t.Ty) > 0 && t.Ty[len(t.Ty)-1] == '1'
-	stored := "" // a field of the stored (admin database) form that differs from the configuration
+	var p2 provisioner.Interface // the provisioner the second presentation meets (admindb: its re-created record)
+	stored := ""                 // a field of the stored (admin database) form that differs from the configuration
 	switch t.Via {
 	case "linkedca":
 		// what an admin-database (or linked CA) deployment does with the same configuration
@@ -95,6 +100,48 @@ func runTokid(t *Tokid) (string, string) {
 		}
 		if p, err = authority.ProvisionerToCertificates(lp); err != nil {
 			return "", ""
+		}
+	case "admindb":
+		// the provisioner as a record of the real admin database (authority/admin/db/nosql on the CA's bbolt file): created
+		// (CreateProvisioner assigns the record id, what the migration on the first enableAdmin start and the admin API do), read
+		// back and converted; then removed and created again with the same configuration: the second record (another id) is the
+		// same provisioner to a client, and a token used under the first must stay used under the second
+		adb, err := adminDBNosql.New(e.ca.DB.(nosql.DB), admin.DefaultAuthorityID)
+		if err != nil {
+			panic(err)
+		}
+		mk := func() provisioner.Interface {
+			lp, err := authority.ProvisionerToLinkedca(provOf(t.Ty, t.CustomSANs))
+			if err != nil {
+				return nil
+			}
+			lp.Name = "p-" + randHex() // names are unique among the live records of the database
+			ctx := context.Background()
+			if err := adb.CreateProvisioner(ctx, lp); err != nil {
+				panic(err)
+			}
+			got, err := adb.GetProvisioner(ctx, lp.Id)
+			if err != nil {
+				panic(err)
+			}
+			if err := adb.DeleteProvisioner(ctx, lp.Id); err != nil {
+				panic(err)
+			}
+			got.Name = "p"
+			q, err := authority.ProvisionerToCertificates(got)
+			if err != nil {
+				return nil
+			}
+			return q
+		}
+		if p = mk(); p == nil {
+			return "", ""
+		}
+		if p2 = mk(); p2 == nil {
+			return "", ""
+		}
+		if p.GetID() == p2.GetID() || p.GetID() == "" {
+			stored = " VIOLATION=admin-database-record-ids-not-distinct"
 		}
 	case "linkedca-direct":
 		// a provisioner created through the admin API: the stored form is written first, the running form derived from it
@@ -137,7 +184,7 @@ func runTokid(t *Tokid) (string, string) {
 	if n := len(kind); kind[n-1] == '0' || kind[n-1] == '1' {
 		kind, dtofu = kind[:n-1], kind[n-1] == '1'
 	}
-	in := fmt.Sprintf("t via=%s kind=%s dtofu=%s dcsans=%s parses=%s", map[string]string{"": "config", "linkedca": "linkedca", "linkedca-direct": "linkedca"}[t.Via], kind, c.B(dtofu), c.B(t.CustomSANs), c.B(!t.Garbage))
+	in := fmt.Sprintf("t via=%s kind=%s dtofu=%s dcsans=%s parses=%s", map[string]string{"": "config", "linkedca": "linkedca", "linkedca-direct": "linkedca", "admindb": "linkedca"}[t.Via], kind, c.B(dtofu), c.B(t.CustomSANs), c.B(!t.Garbage))
 	in += fmt.Sprintf(" jti=%s nonce=%s derived=%s awsvalid=0 sha=%s psha=%s", c.X(t.JTI), c.X(t.Nonce), c.X(derived), c.X(sha256hex(tok)), c.X(payloadSha(tok)))
 	_ = fmt.Sprintf("t ty=%s parses=%s jti=%s nonce=%s derived=%s awsvalid=0 sha=%s", t.Ty, c.B(!t.Garbage),
 		c.X(t.JTI), c.X(t.Nonce), c.X(derived), c.X(sha256hex(tok)))
@@ -164,8 +211,14 @@ func runTokid(t *Tokid) (string, string) {
 			}
 			return nil
 		}
+		if p2 == nil {
+			p2 = p
+		}
 		first := e.ca.Auth.UseToken(tok, p)
-		second := e.ca.Auth.UseToken(tok, p)
+		second := e.ca.Auth.UseToken(tok, p2)
+		if id2, err2 := p2.GetTokenID(tok); (err == nil) != (err2 == nil) || id2 != id {
+			impl += " VIOLATION=token-id-depends-on-the-database-record"
+		}
 		tokidHooks.Before = nil
 		impl += " key=" + key
 		// a recorded key must refuse the second use; no key must allow it
@@ -221,6 +274,7 @@ func cornerTokids() []*Tokid {
 	for _, ty := range []string{"azure0", "azure1", "aws0", "aws1", "gcp0", "gcp1", "jwk", "oidc", "k8ssa", "acme", "x5c", "sshpop", "nebula", "scep"} {
 		for _, cs := range []bool{false, true} {
 			out = append(out, &Tokid{Via: "linkedca", CustomSANs: cs, Ty: ty, JTI: "jl-" + randHex(), Nonce: "nl-" + randHex(), MirID: "ml-" + randHex(), Instance: "il-" + randHex()})
+			out = append(out, &Tokid{Via: "admindb", CustomSANs: cs, Ty: ty, JTI: "ja-" + randHex(), Nonce: "na-" + randHex(), MirID: "ma-" + randHex(), Instance: "ia-" + randHex()})
 			out = append(out, &Tokid{Via: "linkedca-direct", CustomSANs: cs, Ty: ty, JTI: "jd-" + randHex(), Nonce: "nd-" + randHex(), MirID: "md-" + randHex(), Instance: "id-" + randHex()})
 			out = append(out, &Tokid{CustomSANs: cs, Ty: ty, JTI: "jc-" + randHex(), Nonce: "nc-" + randHex(), MirID: "mc-" + randHex(), Instance: "ic-" + randHex()})
 		}
@@ -245,6 +299,8 @@ func genTokid(r *c.Rng) *Tokid {
 		t.Via = "linkedca"
 		if r.Chance(1, 3) {
 			t.Via = "linkedca-direct"
+		} else if r.Chance(1, 2) {
+			t.Via = "admindb"
 		}
 	}
 	// ids are made unique per run so that the shared table never already holds them
